@@ -1,6 +1,6 @@
 (* C05 — tight packing: padding only where alignment demands it. *)
 From Coq Require Import ZArith List Bool.
-From Cntgs Require Import Base BaseLemmas Layout LayoutThm.
+From Cntgs Require Import Base BaseLemmas Layout LayoutThm Spec Rep EsizeThm.
 Import ListNotations.
 Local Open Scope Z_scope.
 
@@ -22,3 +22,23 @@ Proof.
   split; [apply align_up_ge; auto|apply align_up_least; auto].
 Qed.
 Print Assumptions C05_align_up_is_least.
+
+(* (ii) lists without VaryingSize parameter: an element occupies exactly the size the
+   library computes, and the stride is the least multiple of the storage alignment >= it:
+   a full vector uses stride * N bytes, nothing is wasted *)
+Theorem C05_fixed_element_size_exact : forall L fixed t a,
+  wf_plist L = true -> has_varying L = false ->
+  tuple_ok L (fixed_counts L fixed) 0 t -> 0 <= a -> (SA L | a) ->
+  elem_end L a t = a + fst (esize L fixed) /\
+  snd (esize L fixed) = align_up (fst (esize L fixed)) (SA L).
+Proof. exact esize_exact. Qed.
+Print Assumptions C05_fixed_element_size_exact.
+
+(* elements too are packed tightly: the next element starts at the least storage-aligned
+   address at or after the end of the previous one *)
+Theorem C05_elements_tightly_packed : forall L cnts a,
+  wf_plist L = true -> Forall2 cnt_ok L cnts -> 0 <= a -> (SA L | a) ->
+  let e := snd (place L cnts a) in
+  (SA L | first_align L e) /\ e <= first_align L e /\ first_align L e = align_up e (SA L).
+Proof. exact first_align_end. Qed.
+Print Assumptions C05_elements_tightly_packed.
